@@ -39,13 +39,20 @@ CONSTANTS
   Jumps,          \* wall-clock steps (seconds, either sign) the environment may apply while the machine is blocked
   MaxJumps,
   FailSets,       \* sets of storage operations [k, n] that fail; one is chosen per behaviour
+  Bounded,        \* TRUE: the environment's budgets bound the exploration; FALSE: a recorded trace bounds it
   Mut             \* "none" or the name of a seeded design regression (model mutants)
 
 VARIABLES st, obs, g, script
 
 vars == <<st, obs, g, script>>
 
-KID == 1
+\* the run configuration is part of the state (a trace specification takes it from the recorded run; the model
+\* configurations from the constants Mode, CupOn, Apps0, SysApp)
+RMode == st.run.mode
+RCup == st.run.cup
+RSys == st.run.sys
+RKid == st.run.kid
+
 WallOf(c) == [s |-> c.w, ns |-> 123456789]
 MonoOf(c) == [s |-> c.m, ns |-> 0]
 Now(c) == [w |-> Some(WallOf(c)), m |-> Some(MonoOf(c))]
@@ -122,14 +129,14 @@ EvApp(a, evs) == [id |-> a.id, ver |-> a.ver, fp |-> "None", cohort |-> a.cohort
 
 HttpLine(kind, n, payload, p, rid, sid, nonce, ans, c) ==
   Stamp([k |-> "http." \o kind, kind |-> kind, n |-> n, method |-> "POST",
-         url |-> [base_ok |-> TRUE, n_cup2key |-> IF CupOn THEN 1 ELSE 0, cup_last |-> TRUE,
-                  cup2key |-> IF CupOn THEN Some([kid |-> KID, nonce |-> nonce, hex64 |-> TRUE]) ELSE None],
+         url |-> [base_ok |-> TRUE, n_cup2key |-> IF RCup THEN 1 ELSE 0, cup_last |-> TRUE,
+                  cup2key |-> IF RCup THEN Some([kid |-> RKid, nonce |-> nonce, hex64 |-> TRUE]) ELSE None],
          hdr |-> [ctype |-> "application/json", updater |-> "vupdater",
                   inter |-> IF p.src = "ondemand" THEN "fg" ELSE "bg",
                   appid |-> IF payload = <<>> THEN "None" ELSE payload[1].id],
          req |-> [proto |-> "3.0", updater |-> "vupdater", uver |-> "0.1.2.3", src |-> p.src, ismachine |-> TRUE,
                   rid |-> rid, sid |-> sid, rid_ok |-> TRUE, sid_ok |-> TRUE, os_ok |-> TRUE, apps |-> payload],
-         meta |-> [present |-> CupOn, body_eq |-> CupOn, key_eq |-> CupOn],
+         meta |-> [present |-> RCup, body_eq |-> RCup, key_eq |-> RCup],
          ans |-> ans], c)
 
 \* what the request step returns to its caller
@@ -137,12 +144,20 @@ ExResult(a) ==
   IF a.cls = "transport" THEN "transport"
   ELSE IF a.cls = "timeout" THEN "transport"
   ELSE IF a.cls = "user" THEN "user"
-  ELSE IF CupOn /\ a.auth # "genuine" /\ ~(Mut = "M05" /\ ~Is2xx(a)) THEN "cupval"
+  ELSE IF RCup /\ a.auth # "genuine" /\ ~(Mut = "M05" /\ ~Is2xx(a)) THEN "cupval"
   ELSE IF ~Is2xx(a) THEN "status"
   ELSE "ok"
 \* does the header step run? (:1357-1369 verify before anything is read)
-HeaderRead(a) == a.cls = "resp" /\ (~CupOn \/ a.auth = "genuine" \/ (Mut = "M05" /\ ~Is2xx(a)) \/ Mut = "header-before-verify")
-NewPoll(a, old) == IF HeaderRead(a) THEN XraOf(a.xra).v ELSE old
+HeaderRead(a) == a.cls = "resp" /\ (~RCup \/ a.auth = "genuine" \/ (Mut = "M05" /\ ~Is2xx(a)) \/ Mut = "header-before-verify")
+\* what the code does with the header (:1386-1403): HeaderMap::get is the FIRST value; to_str, then u64::from_str,
+\* which also accepts one leading '+'; capped at a day.  (The property leaves '+n' and disagreeing duplicates open;
+\* the design model says what this implementation does with them.)
+XraCode(list) ==
+  IF list = <<>> THEN None
+  ELSE LET bs == list[1]
+           ds == IF Len(bs) >= 2 /\ bs[1] = 43 THEN Tail(bs) ELSE bs IN
+       IF AllDigits(ds) /\ FitsU64(StripZeros(ds)) THEN Some(Capped(StripZeros(ds))) ELSE None
+NewPoll(a, old) == IF HeaderRead(a) THEN XraCode(a.xra) ELSE old
 
 (***************************************************************************)
 (* State.                                                                  *)
@@ -152,10 +167,10 @@ CkInit == [params |-> NoParams, sid |-> 0, attempt |-> 1, ucAns |-> NoAns, ucRes
            plan |-> "none", decision |-> "none", results |-> <<>>, apps |-> <<>>, outcome |-> "none", needed |-> FALSE,
            nev |-> 0, optSrc |-> "scheduledtask", reqId |-> 0, finish |-> [w |-> 0, m |-> 0], reqStart |-> 0,
            startW |-> 0, firstSeen |-> [s |-> 0, ns |-> 0]]
-Init ==
-  /\ st = [pc |-> "B0", clk |-> [w |-> 0, m |-> 0],
+InitWith(run, apps0, os0) ==
+  /\ st = [pc |-> "B0", clk |-> [w |-> 0, m |-> 0], run |-> run,
            ctx |-> [poll |-> None, fails |-> 0, lut |-> EmptyLut, lct |-> EmptyLut, next |-> None],
-           apps |-> Apps0, store |-> [pend |-> <<>>, comm |-> <<>>, fail |-> {},
+           apps |-> apps0, store |-> [pend |-> <<>>, comm |-> <<>>, fail |-> {},
                                       cnt |-> [k \in {"st.set", "st.rm", "st.commit"} |-> 0]],
            ids |-> [rid |-> 0, sid |-> 0, nonce |-> 0, tid |-> 0, req |-> 0],
            cnt |-> [uc |-> 0, ev |-> 0, ping |-> 0, plan |-> 0, start |-> 0, install |-> 0, needed |-> 0,
@@ -165,17 +180,19 @@ Init ==
            wait |-> [untilTid |-> 0, forTid |-> 0, untilFired |-> FALSE, forFired |-> FALSE, rbTid |-> 0, rbFired |-> FALSE],
            ctlq |-> <<>>, inWfr |-> FALSE, respOwed |-> <<>>,
            op |-> [kind |-> "none", n |-> 0, next |-> "none", ctl |-> FALSE, jumped |-> FALSE],
-           nCrash |-> 0, nJump |-> 0, os |-> "1.0", presets |-> Apps0, startM |-> 0, wfr |-> FALSE]
+           nCrash |-> 0, nJump |-> 0, os |-> os0, presets |-> apps0, startM |-> 0, wfr |-> FALSE]
   /\ obs = <<>>
   /\ g = GhostInit
   /\ script = <<>>
 
+Init == InitWith([mode |-> Mode, cup |-> CupOn, sys |-> SysApp, kid |-> 1], Apps0, "1.0")
+
 Ans(kind, n, a) == <<[key |-> kind, n |-> n, ans |-> a]>>
 Stim(p, n, do) == <<[p |-> p, n |-> n, do |-> do]>>
 
-RunCfgOf(os, apps) == [mode |-> Mode, cup |-> CupOn, kid |-> IF CupOn THEN KID ELSE 0, apps |-> apps, sys |-> SysApp, os |-> os,
+RunCfgOf(os, apps) == [mode |-> RMode, cup |-> RCup, kid |-> IF RCup THEN RKid ELSE 0, apps |-> apps, sys |-> RSys, os |-> os,
                        url |-> "http://omaha.example/svc/v1", twin |-> FALSE]
-RunCfg == RunCfgOf("1.0", Apps0)
+RunCfg == RunCfgOf(st.os, st.presets)
 
 (***************************************************************************)
 (* B0: build + load (builder.rs:276-316); storage is empty in this model   *)
@@ -184,12 +201,12 @@ RunCfg == RunCfgOf("1.0", Apps0)
 RECURSIVE SetToScript(_)
 SetToScript(fs) == IF fs = {} THEN <<>>
                    ELSE LET f == CHOOSE f \in fs : TRUE IN Ans(f.k, f.n, "err") \o SetToScript(fs \ {f})
-B0_Start ==
+B0_With(fs) ==
   /\ st.pc = "B0"
   /\ Emit(<<Stamp([k |-> "cfg", id |-> "tlc", run |-> RunCfg, store |-> <<>>], st.clk)>>)
-  /\ \E fs \in FailSets :
-       /\ st' = [st EXCEPT !.pc = IF Mode = "oneshot" THEN "P1" ELSE "R4", !.store.fail = fs]
-       /\ script' = script \o SetToScript(fs)
+  /\ st' = [st EXCEPT !.pc = IF RMode = "oneshot" THEN "P1" ELSE "R4", !.store.fail = fs]
+  /\ script' = script \o SetToScript(fs)
+B0_Start == \E fs \in FailSets : B0_With(fs)
 
 (***************************************************************************)
 (* Continuous operation: R5 next time, R6 arm, R7 select, R8 allowed.      *)
@@ -234,7 +251,7 @@ WaitDone(w) == (w.untilFired /\ (w.forTid = 0 \/ w.forFired)) \/ (Mut = "M16" /\
 \* The environment's stimulus budget: scenario runs deliver one stimulus at a time (nothing else ready), so that
 \* every printed behaviour is reproducible; ties between ready sources are judged in the record direction.
 Quiet == st.ctlq = <<>> /\ ~WaitDone(st.wait) /\ ~st.wait.rbFired
-Budget == IF st.pc = "R7" THEN st.nChecks < MaxChecks /\ st.cnt.check < MaxChecks + 1
+Budget == ~Bounded \/ IF st.pc = "R7" THEN st.nChecks < MaxChecks /\ st.cnt.check < MaxChecks + 1
           ELSE st.cnt.ping < 2 /\ st.nAsk < MaxRebootAsks
 FireTimer(which) ==
   /\ st.pc \in {"R7", "W3"} /\ Quiet /\ Budget
@@ -249,23 +266,38 @@ FireTimer(which) ==
                          !.wait.untilFired = @ \/ which = "until", !.wait.forFired = @ \/ which = "for",
                          !.wait.rbFired = @ \/ which = "rb"]
 
+\* a timer armed for an earlier wait fires after that wait was abandoned (a request arrived first, the reboot question
+\* was answered): nobody is listening any more.  Only time passes.
+FireStale(tid) ==
+  /\ st.pc \in {"R7", "W3", "OP"} /\ tid \in 1..st.ids.tid
+  /\ IF st.pc = "OP" THEN ~(st.op.kind = "idle" /\ tid = st.ids.tid)
+                     ELSE tid \notin {st.wait.untilTid, st.wait.forTid, st.wait.rbTid}
+  /\ LET backoff == st.pc = "OP" /\ st.op.kind = "idle"
+         at == IF st.pc = "OP" THEN st.op.kind ELSE "idle"
+         n == IF st.pc = "OP" THEN st.op.n ELSE st.cnt.idle + 1 IN
+     /\ Emit(<<Stamp([k |-> "tm.fire", tid |-> tid], st.clk)>>)
+     /\ script' = script \o Stim(at, n, [s |-> "fire", sel |-> "tid", tid |-> tid])
+     /\ st' = [st EXCEPT !.clk = Tick(@), !.op.n = IF backoff THEN @ + 1 ELSE @,
+                         !.cnt.idle = IF st.pc = "OP" /\ ~backoff THEN @ ELSE @ + 1]
+
 \* the wall clock is stepped (NTP, user) while the machine is blocked in an operation or in a select; the
 \* monotonic clock is not affected.  Everything that subtracts wall times must cope with a negative difference.
 ClockJump(dw) ==
-  /\ st.nJump < MaxJumps
-  /\ \/ st.pc = "OP" /\ ~st.op.jumped
-     \/ st.pc \in {"R7", "W3"} /\ Mode = "start" /\ Quiet /\ Budget
+  /\ (~Bounded \/ st.nJump < MaxJumps)
+  /\ \/ st.pc = "OP" /\ (~Bounded \/ ~st.op.jumped)
+     \/ st.pc \in {"R7", "W3"} /\ RMode = "start" /\ Quiet /\ Budget
   /\ LET at == IF st.pc = "OP" THEN st.op.kind ELSE "idle"
          n == IF st.pc = "OP" THEN st.op.n ELSE st.cnt.idle + 1
          c1 == [st.clk EXCEPT !.w = @ + dw] IN
      /\ Emit(<<Stamp([k |-> "clock", dw |-> dw, dm |-> 0], c1)>>)
      /\ script' = script \o Stim(at, n, [s |-> "clock", dw |-> dw, dm |-> 0])
      /\ st' = [st EXCEPT !.clk = c1, !.nJump = @ + 1, !.op.jumped = (st.pc = "OP"),
-                         !.cnt.idle = IF st.pc = "OP" THEN @ ELSE @ + 1]
+                         !.op.n = IF st.pc = "OP" /\ st.op.kind = "idle" THEN @ + 1 ELSE @,
+                         !.cnt.idle = IF st.pc = "OP" /\ st.op.kind # "idle" THEN @ ELSE @ + 1]
 
 \* a control request arrives while the machine is blocked in a select (R7 / W3) or busy
 CtlSendIdle(src) ==
-  /\ st.pc \in {"R7", "W3"} /\ st.nCtl < MaxCtl /\ Mode = "start" /\ Quiet /\ Budget
+  /\ st.pc \in {"R7", "W3"} /\ (~Bounded \/ st.nCtl < MaxCtl) /\ RMode = "start" /\ Quiet /\ Budget
   /\ LET id == st.ids.req + 1
          n == st.cnt.idle + 1 IN
      /\ Emit(<<Stamp([k |-> "ctl.send", req |-> id, h |-> 0, src |-> src], st.clk)>>)
@@ -293,25 +325,78 @@ LoadCtx(store) ==
    lut |-> t, lct |-> t, next |-> None]
 WfrOwed(store, os) == "update_finish_time" \in DOMAIN store /\ "target_version" \in DOMAIN store /\ store["target_version"] = os
 
+\* the machine in state s dies where it stands and is rebuilt for `run`: the new state and the lines logged
+CrashTo(s, run) ==
+  LET at == IF s.pc = "OP" THEN s.op.kind ELSE "idle"
+      comm == s.store.comm
+      apps1 == [i \in 1..Len(run.apps) |-> ModelLoadApp(run.apps[i], comm)]
+      gone == [i \in 1..Len(s.ctlq) |-> Stamp([k |-> "ctl.reply", req |-> s.ctlq[i].req, ans |-> "gone"], s.clk)] IN
+  [lines |-> <<Stamp([k |-> "crash", at |-> at], s.clk)>> \o gone
+             \o <<Stamp([k |-> "restart", run |-> [mode |-> s.run.mode, cup |-> s.run.cup, kid |-> IF s.run.cup THEN s.run.kid ELSE 0,
+                                                    apps |-> run.apps, sys |-> s.run.sys, os |-> run.os,
+                                                    url |-> "http://omaha.example/svc/v1", twin |-> FALSE],
+                          store |-> comm], s.clk)>>,
+   st |-> [s EXCEPT !.pc = "R4", !.store.pend = comm, !.ctx = LoadCtx(comm), !.apps = apps1,
+                    !.ck = CkInit, !.rq = [kind |-> "none", apps |-> <<>>, ret |-> "none", res |-> "none", ans |-> NoAns],
+                    !.wait = [untilTid |-> 0, forTid |-> 0, untilFired |-> FALSE, forFired |-> FALSE, rbTid |-> 0, rbFired |-> FALSE],
+                    !.ctlq = <<>>, !.inWfr = FALSE, !.respOwed = <<>>, !.nAsk = 0,
+                    !.op = [kind |-> "none", n |-> 0, next |-> "none", ctl |-> FALSE, jumped |-> FALSE],
+                    !.cnt.idle = IF s.pc = "OP" THEN @ ELSE @ + 1,
+                    !.nCrash = @ + 1, !.os = run.os, !.presets = run.apps, !.startM = s.clk.m,
+                    !.wfr = WfrOwed(comm, run.os)]]
+(***************************************************************************)
+(* What survives a crash is a function of the LOG: the committed store is  *)
+(* the snapshot of the last successful commit (or what the last restart    *)
+(* found), every ordinal and token is the highest one logged, the time is  *)
+(* the stamp of the last line.  Pseudo(pre, s) is the machine "somewhere   *)
+(* inside a step" as far as a crash is concerned, given the lines `pre`    *)
+(* logged so far; RecoverAgrees checks it against the real state at every  *)
+(* pending operation of every behaviour, and TraceOmaha uses it for        *)
+(* crashes that the recorded runs place INSIDE an atomic step of this      *)
+(* model (at a storage or policy operation, or while an event is taken).   *)
+(***************************************************************************)
+IdxWhere(pre, P(_)) == {i \in 1..Len(pre) : P(pre[i])}
+CountK(pre, k) == Cardinality(IdxWhere(pre, LAMBDA e : e.k = k))
+MaxOr0(S) == IF S = {} THEN 0 ELSE CHOOSE x \in S : \A y \in S : y <= x
+HttpKinds == {"http.uc", "http.ev", "http.ping"}
+CommOf(pre) ==
+  LET S == IdxWhere(pre, LAMBDA e : (e.k = "st.commit" /\ e.ans = "ok") \/ e.k \in {"restart", "cfg"})
+      e == pre[MaxOr0(S)] IN
+  IF e.k = "st.commit" THEN e.snap ELSE e.store
+Pseudo(pre, s) ==
+  LET last == pre[Len(pre)]
+      http == IdxWhere(pre, LAMBDA e : e.k \in HttpKinds)
+      sent == IdxWhere(pre, LAMBDA e : e.k = "ctl.send")
+      answered == {pre[i].req : i \in IdxWhere(pre, LAMBDA e : e.k = "ctl.reply")}
+      out == SelectSeq([i \in 1..Len(pre) |-> i], LAMBDA i : i \in sent /\ pre[i].req \notin answered) IN
+  [s EXCEPT !.pc = "OP", !.op.kind = last.k,
+            !.clk = [w |-> last.tw, m |-> last.tm],
+            !.store.comm = CommOf(SubSeq(pre, 1, Len(pre) - 1)),   \* (the last line is the operation still pending)
+            !.store.cnt = [k \in {"st.set", "st.rm", "st.commit"} |-> CountK(pre, k)],
+            !.cnt = [uc |-> CountK(pre, "http.uc"), ev |-> CountK(pre, "http.ev"), ping |-> CountK(pre, "http.ping"),
+                     plan |-> CountK(pre, "inst.plan"), start |-> CountK(pre, "pol.start"), install |-> CountK(pre, "inst.install"),
+                     needed |-> CountK(pre, "pol.rbneeded"), allowed |-> CountK(pre, "pol.rballowed"),
+                     check |-> CountK(pre, "pol.check"), next |-> CountK(pre, "pol.next"), idle |-> s.cnt.idle, evs |-> s.cnt.evs],
+            !.ids = [rid |-> MaxOr0({pre[i].req.rid : i \in http}), sid |-> MaxOr0({pre[i].req.sid : i \in http}),
+                     nonce |-> MaxOr0({pre[i].url.cup2key[1].nonce : i \in {j \in http : IsSome(pre[j].url.cup2key)}}),
+                     tid |-> MaxOr0({pre[i].tid : i \in IdxWhere(pre, LAMBDA e : e.k = "tm.arm")}),
+                     req |-> MaxOr0({pre[i].req : i \in sent})],
+            !.ctlq = [i \in 1..Len(out) |-> [req |-> pre[out[i]].req, src |-> pre[out[i]].src]]]
+\* fields that only bound the exploration or number the driver's stimulus points do not take part
+CrashCore(s) == [s EXCEPT !.cnt.idle = 0, !.cnt.evs = 0]
+RecoverAgrees ==
+  (st.pc = "OP" /\ RMode = "start") =>
+     \A run \in RestartRuns : CrashCore(CrashTo(Pseudo(obs, st), run).st) = CrashCore(CrashTo(st, run).st)
+
 Crash(run) ==
-  /\ Mode = "start" /\ st.nCrash < MaxCrashes
+  /\ RMode = "start" /\ (~Bounded \/ st.nCrash < MaxCrashes)
   /\ st.pc \in {"OP", "R7", "W3"} /\ (st.pc = "OP" \/ Quiet)
   /\ LET at == IF st.pc = "OP" THEN st.op.kind ELSE "idle"
          n == IF st.pc = "OP" THEN st.op.n ELSE st.cnt.idle + 1
-         comm == st.store.comm
-         apps1 == [i \in 1..Len(run.apps) |-> ModelLoadApp(run.apps[i], comm)]
-         gone == [i \in 1..Len(st.ctlq) |-> Stamp([k |-> "ctl.reply", req |-> st.ctlq[i].req, ans |-> "gone"], st.clk)] IN
-     /\ Emit(<<Stamp([k |-> "crash", at |-> at], st.clk)>> \o gone
-             \o <<Stamp([k |-> "restart", run |-> RunCfgOf(run.os, run.apps), store |-> comm], st.clk)>>)
+         r == CrashTo(st, run) IN
+     /\ Emit(r.lines)
      /\ script' = script \o Stim(at, n, [s |-> "crash", run |-> [os_version |-> run.os, apps |-> run.apps]])
-     /\ st' = [st EXCEPT !.pc = "R4", !.store.pend = comm, !.ctx = LoadCtx(comm), !.apps = apps1,
-                         !.ck = CkInit, !.rq = [kind |-> "none", apps |-> <<>>, ret |-> "none", res |-> "none", ans |-> NoAns],
-                         !.wait = [untilTid |-> 0, forTid |-> 0, untilFired |-> FALSE, forFired |-> FALSE, rbTid |-> 0, rbFired |-> FALSE],
-                         !.ctlq = <<>>, !.inWfr = FALSE, !.respOwed = <<>>, !.nAsk = 0,
-                         !.op = [kind |-> "none", n |-> 0, next |-> "none", ctl |-> FALSE, jumped |-> FALSE],
-                         !.cnt.idle = IF st.pc = "OP" THEN @ ELSE @ + 1,
-                         !.nCrash = @ + 1, !.os = run.os, !.presets = run.apps, !.startM = st.clk.m,
-                         !.wfr = WfrOwed(comm, run.os)]
+     /\ st' = r.st
 
 \* top of the loop: report the waited-for-reboot duration once the clocks are consistent, then clear the record
 R4_ReportWait ==
@@ -402,7 +487,7 @@ O2_Http(a) ==
          rid == IF Mut = "M42" /\ kind = "uc" /\ st.ck.attempt > 1 THEN st.ids.rid ELSE st.ids.rid + 1
          sid == IF kind = "ping" THEN st.ids.sid + 1 ELSE st.ck.sid
          p == IF kind = "ping" THEN NoParams ELSE IF kind = "ev" /\ Mut = "M32" THEN NoParams ELSE st.ck.params
-         nonce == st.ids.nonce + 1 IN
+         nonce == IF RCup THEN st.ids.nonce + 1 ELSE st.ids.nonce IN
      /\ Emit(<<HttpLine(kind, n, st.rq.apps, p, rid, sid, nonce, a, st.clk)>>)
      /\ script' = script \o Ans("http." \o kind, n, a)
      /\ st' = [st EXCEPT !.pc = "OP", !.op = [kind |-> "http." \o kind, n |-> n, next |-> "O4", ctl |-> st.inWfr, jumped |-> FALSE],
@@ -445,11 +530,18 @@ P4b_Classify(draw) ==
                 ms == base + draw
                 tid == st.ids.tid + 1 IN
             /\ Emit(<<met, Stamp([k |-> "tm.arm", tid |-> tid, t |-> "for", ms |-> ms,
-                                   d |-> [s |-> ms \div 1000, ns |-> (ms % 1000) * 1000000]], st.clk),
-                      Stamp([k |-> "tm.fire", tid |-> tid], st.clk)>>)
-            \* (the back-off wait is a blocking point with no operation pending: it counts as an idle point)
-            /\ st' = [st EXCEPT !.pc = "P4a", !.clk = Tick(@), !.ids.tid = tid, !.ck.attempt = @ + 1, !.cnt.idle = @ + 1]
+                                   d |-> [s |-> ms \div 1000, ns |-> (ms % 1000) * 1000000]], st.clk)>>)
+            \* the back-off wait is a blocking point with no operation pending: it counts as an idle point, at which
+            \* control requests (answered AlreadyRunning by the check's select), clock steps and crashes may arrive
+            /\ st' = [st EXCEPT !.pc = "OP", !.ids.tid = tid, !.cnt.idle = @ + 1,
+                                !.op = [kind |-> "idle", n |-> st.cnt.idle + 1, next |-> "P4a", ctl |-> FALSE, jumped |-> FALSE]]
             /\ UNCHANGED script
+\* the back-off timer fires (the driver fires it as soon as nothing else is scripted for this point)
+P4w_BackoffDone ==
+  /\ st.pc = "OP" /\ st.op.kind = "idle"
+  /\ Emit(<<Stamp([k |-> "tm.fire", tid |-> st.ids.tid], st.clk)>>)
+  /\ st' = [st EXCEPT !.pc = "P4a", !.clk = Tick(@), !.ck.attempt = @ + 1]
+  /\ UNCHANGED script
 
 BodyDoc(a) == Has(a.body, "doc")
 
@@ -498,18 +590,20 @@ AfterReport(nEvents, next) ==
 P6r == st.pc = "P6r" /\ AfterReport(1, "S4")
 
 \* :943-971 install plan
+\* a is "err" or the id of the plan ("ok" stands for "plan1")
+PlanId(a) == IF a = "ok" THEN "plan1" ELSE a
 P9_Plan(a) ==
   /\ st.pc = "P9"
   /\ LET n == st.cnt.plan + 1
          line == Stamp([k |-> "inst.plan", n |-> n, params |-> [src |-> st.ck.params.src, dis |-> st.ck.params.dis, same |-> st.ck.params.same, proxy |-> TRUE],
-                        meta |-> CupOn, meta_eq |-> TRUE, wire_eq |-> TRUE, bytes_eq |-> TRUE, sig |-> CupOn, sig_eq |-> TRUE,
+                        meta |-> RCup, meta_eq |-> TRUE, wire_eq |-> TRUE, bytes_eq |-> TRUE, sig |-> RCup, sig_eq |-> TRUE,
                         n_offered |-> Len(Offered(st.ck.doc)),
-                        ans |-> [ok |-> IF a = "ok" THEN Some("plan1") ELSE None]], st.clk) IN
-     /\ script' = script \o Ans("inst.plan", n, [ok |-> IF a = "ok" THEN Some("plan1") ELSE None])
-     /\ IF a = "ok"
+                        ans |-> [ok |-> IF a # "err" THEN Some(PlanId(a)) ELSE None]], st.clk) IN
+     /\ script' = script \o Ans("inst.plan", n, [ok |-> IF a # "err" THEN Some(PlanId(a)) ELSE None])
+     /\ IF a # "err"
           THEN /\ Emit(<<line>>)
                /\ st' = [st EXCEPT !.pc = "OP", !.op = [kind |-> "inst.plan", n |-> n, next |-> "P10", ctl |-> FALSE, jumped |-> FALSE],
-                                   !.cnt.plan = n, !.ck.plan = "ok"]
+                                   !.cnt.plan = n, !.ck.plan = PlanId(a)]
           ELSE /\ Emit(<<line>>)
                /\ st' = [st EXCEPT !.pc = "OP", !.op = [kind |-> "inst.plan", n |-> n, next |-> "P9e", ctl |-> FALSE, jumped |-> FALSE],
                                    !.cnt.plan = n, !.ck.plan = "err", !.ck.outcome = "plan"]
@@ -524,7 +618,7 @@ P9r == st.pc = "P9r" /\ AfterReport(1, "S4")
 P10_CanStart(a) ==
   /\ st.pc = "P10"
   /\ LET n == st.cnt.start + 1
-         line == Stamp([k |-> "pol.start", n |-> n, plan |-> "plan1", ans |-> a], st.clk) IN
+         line == Stamp([k |-> "pol.start", n |-> n, plan |-> st.ck.plan, ans |-> a], st.clk) IN
      /\ Emit(<<line>>)
      /\ script' = script \o Ans("pol.start", n, a)
      /\ st' = [st EXCEPT !.pc = "OP", !.op = [kind |-> "pol.start", n |-> n, next |-> IF a = "ok" THEN "P11" ELSE "P10d", ctl |-> FALSE, jumped |-> FALSE],
@@ -552,10 +646,10 @@ P11_Started ==
 P12_FirstSeen ==
   /\ st.pc = "P12"
   /\ LET lost == IF st.rq.res = "ok" THEN <<>> ELSE LostLines(1, st.clk)
-         same == Has(st.store.pend, "install_plan_id") /\ st.store.pend["install_plan_id"] = "plan1"
+         same == Has(st.store.pend, "install_plan_id") /\ st.store.pend["install_plan_id"] = st.ck.plan
          now == [s |-> st.clk.w, ns |-> 123456789]
          \* 1st write fails => give up (now); 2nd fails => forget the plan id (result ignored), no commit (now)
-         r1 == StRun(<<[k |-> "st.set", key |-> "install_plan_id", v |-> "plan1"]>>, st.store, st.clk, <<>>)
+         r1 == StRun(<<[k |-> "st.set", key |-> "install_plan_id", v |-> st.ck.plan]>>, st.store, st.clk, <<>>)
          ok1 == r1.lines[1].ans = "ok"
          r2 == StRun(<<[k |-> "st.set", key |-> "update_first_seen_time", v |-> TruncWall(WallOf(st.clk))]>>, r1.store, r1.clk, r1.lines)
          ok2 == r2.lines[2].ans = "ok"
@@ -575,16 +669,22 @@ RECURSIVE ProgLines(_, _)
 ProgLines(ps, c) == IF ps = <<>> THEN <<>>
                     ELSE <<Stamp([k |-> "inst.prog", p |-> Head(ps)], c), Stamp([k |-> "ev", e |-> "progress", p |-> Head(ps)], c),
                            Stamp([k |-> "inst.prog.ret"], c)>> \o ProgLines(Tail(ps), c)
+\* an installer that reports all its values without waiting for the observer in between (join_all of the
+\* receive_progress futures): the unbounded channel keeps them in order and the events follow in that order
+ProgLinesConc(ps, c) == [i \in 1..Len(ps) |-> Stamp([k |-> "inst.prog", p |-> ps[i]], c)]
+                        \o [i \in 1..Len(ps) |-> Stamp([k |-> "ev", e |-> "progress", p |-> ps[i]], c)]
 ResultSeqs(n) == [1..n -> ResultLetters]
-P13_Install(results, prog) ==
+P13_InstallM(results, prog, pm) ==
   /\ st.pc = "P13"
   /\ LET n == st.cnt.install + 1
-         a == [results |-> results, progress |-> prog, pmode |-> "seq"] IN
-     /\ Emit(<<Stamp([k |-> "inst.begin", plan |-> "plan1", obs |-> TRUE], st.clk)>> \o ProgLines(prog, st.clk)
-             \o <<Stamp([k |-> "inst.install", n |-> n, plan |-> "plan1", n_offered |-> Len(results), ans |-> a], st.clk)>>)
+         a == [results |-> results, progress |-> prog, pmode |-> pm] IN
+     /\ Emit(<<Stamp([k |-> "inst.begin", plan |-> st.ck.plan, obs |-> TRUE], st.clk)>>
+             \o (IF pm = "conc" THEN ProgLinesConc(prog, st.clk) ELSE ProgLines(prog, st.clk))
+             \o <<Stamp([k |-> "inst.install", n |-> n, plan |-> st.ck.plan, n_offered |-> Len(results), ans |-> a], st.clk)>>)
      /\ script' = script \o Ans("inst.install", n, a)
      /\ st' = [st EXCEPT !.pc = "OP", !.op = [kind |-> "inst.install", n |-> n, next |-> "P15", ctl |-> FALSE, jumped |-> FALSE],
                          !.cnt.install = n, !.ck.results = results, !.ck.finish = Tick(st.clk)]
+P13_Install(results, prog) == P13_InstallM(results, prog, "seq")
 
 \* :1087-1136 per-app events: offered entries zipped with results, known apps only, merged by id
 KnownIn(apps, id) == \E i \in 1..Len(apps) : apps[i].id = id
@@ -650,9 +750,9 @@ P18_Errors ==
        THEN /\ Emit([i \in 1..Cardinality(Failed(st.ck.results)) |-> Stamp([k |-> "ev", e |-> "insterr", msg |-> "x"], st.clk)]
                     \o <<StateEv("InstallationError", st.clk)>>)
             /\ st' = [st EXCEPT !.pc = "S3", !.ck.outcome = "installed", !.ck.needed = FALSE]
-       ELSE LET sysOff == \E i \in 1..Len(st.ck.doc.apps) : st.ck.doc.apps[i].id = SysApp /\ IsOffered(st.ck.doc.apps[i])
+       ELSE LET sysOff == \E i \in 1..Len(st.ck.doc.apps) : st.ck.doc.apps[i].id = RSys /\ IsOffered(st.ck.doc.apps[i])
                 anyOff == Offered(st.ck.doc)
-                tv == IF Mut = "M25" THEN anyOff[1].uc[1].ver ELSE NextVer(st.ck.doc, SysApp)
+                tv == IF Mut = "M25" THEN anyOff[1].uc[1].ver ELSE NextVer(st.ck.doc, RSys)
                 ops == <<[k |-> "st.set", key |-> "update_finish_time", v |-> TruncWall(WallOf(st.ck.finish))]>>
                        \o (IF sysOff \/ Mut = "M25"
                              THEN <<[k |-> "st.set", key |-> "target_version", v |-> IF tv = "None" THEN "UNKNOWN" ELSE tv]>>
@@ -673,7 +773,7 @@ P18_Errors ==
 P20_Needed(a) ==
   /\ st.pc = "P20"
   /\ LET n == st.cnt.needed + 1 IN
-     /\ Emit(<<Stamp([k |-> "pol.rbneeded", n |-> n, plan |-> "plan1", ans |-> a], st.clk)>>)
+     /\ Emit(<<Stamp([k |-> "pol.rbneeded", n |-> n, plan |-> st.ck.plan, ans |-> a], st.clk)>>)
      /\ script' = script \o Ans("pol.rbneeded", n, a)
      /\ st' = [st EXCEPT !.pc = "OP", !.op = [kind |-> "pol.rbneeded", n |-> n, next |-> "S3", ctl |-> FALSE, jumped |-> FALSE],
                          !.cnt.needed = n, !.ck.needed = a]
@@ -749,7 +849,7 @@ S5_Close ==
      /\ Emit(<<SchedEv(st.ctx, c), Stamp([k |-> "ev", e |-> "pstate", poll |-> st.ctx.poll, fails |-> st.ctx.fails], c), result>>
              \o r.lines)
      /\ st' = [st EXCEPT !.store = r.store, !.clk = r.clk,
-                         !.pc = IF Mode = "oneshot" THEN "END"
+                         !.pc = IF RMode = "oneshot" THEN "END"
                                 ELSE IF okc /\ st.ck.decision = "ok" /\ st.ck.needed = TRUE /\ Failed(st.ck.results) = {} THEN "R11" ELSE "R12"]
   /\ UNCHANGED script
 
@@ -761,16 +861,19 @@ S5_Close ==
 \* clock ticks).  In between, the in-check select may take a control request: AlreadyRunning, and an on-demand
 \* request upgrades the options.
 OpDone ==
-  /\ st.pc = "OP"
+  /\ st.pc = "OP" /\ st.op.kind # "idle"
   /\ st' = [st EXCEPT !.pc = st.op.next, !.clk = Tick(@)]
   /\ UNCHANGED <<obs, g, script>>
 CtlSendBusy(src) ==
-  /\ st.pc = "OP" /\ Mode = "start" /\ st.nCtl < MaxCtl /\ ~st.op.ctl
+  /\ st.pc = "OP" /\ RMode = "start" /\ (~Bounded \/ st.nCtl < MaxCtl) /\ (IF Bounded THEN ~st.op.ctl ELSE ~st.inWfr)
   /\ LET id == st.ids.req + 1 IN
      /\ Emit(<<Stamp([k |-> "ctl.send", req |-> id, h |-> 0, src |-> src], st.clk),
                Stamp([k |-> "ctl.reply", req |-> id, ans |-> "already"], st.clk)>>)
      /\ script' = script \o Stim(st.op.kind, st.op.n, [s |-> "ctl", h |-> 0, src |-> src])
+     \* (every stall of the back-off wait is a new idle point of the driver)
      /\ st' = [st EXCEPT !.ids.req = id, !.nCtl = @ + 1, !.op.ctl = TRUE,
+                         !.op.n = IF st.op.kind = "idle" THEN @ + 1 ELSE @,
+                         !.cnt.idle = IF st.op.kind = "idle" THEN @ + 1 ELSE @,
                          !.ck.optSrc = IF src = "ondemand" THEN "ondemand" ELSE @]
 
 (***************************************************************************)
@@ -858,7 +961,7 @@ EndOneShot ==
   /\ UNCHANGED script
 \* continuous mode: the scenario is cut when the budget of checks is used up or the machine idles with nothing to do
 EndStart ==
-  /\ Mode = "start" /\ st.pc \in {"R7", "W3"} /\ Quiet
+  /\ RMode = "start" /\ st.pc \in {"R7", "W3"} /\ Quiet
   /\ Emit(<<Stamp([k |-> "end"], st.clk)>>)
   /\ st' = [st EXCEPT !.pc = "DONE"]
   /\ UNCHANGED script
@@ -877,6 +980,7 @@ Next ==
   \/ (st.pc = "O2" /\ \E a \in (CASE st.rq.kind = "uc" -> UcAnswers [] st.rq.kind = "ev" -> EvAnswers [] OTHER -> PingAnswers) : O2_Http(a))
   \/ O4_Header
   \/ \E d \in BackoffDraws : P4b_Classify(d)
+  \/ P4w_BackoffDone
   \/ P6_Parse \/ P6r
   \/ \E a \in PlanAnswers : P9_Plan(a)
   \/ P9r \/ P9e_PlanFailed \/ OpDone
